@@ -114,6 +114,8 @@ type VContainer struct {
 	Cli     []CliVal `json:"cli"`
 	// UsePtr: declared through the *Ptr API (BoolPtr(&into, ...)) instead of the value-returning one
 	UsePtr bool `json:"use_ptr,omitempty"`
+	// Cli2: values given on a SECOND command line run on the same application object (ValueCase.Second)
+	Cli2 []CliVal `json:"cli2,omitempty"`
 }
 
 // ValueCase is the case type of C06, C13 and C15.
@@ -126,6 +128,9 @@ type ValueCase struct {
 	// ShareDefaults: multi-valued containers of the same type whose declared defaults are equal are declared
 	// with the very same slice (as a program holding one package-level default would do)
 	ShareDefaults bool `json:"share_defaults,omitempty"`
+	// Second: after the first command line, a second one (built from the containers' Cli2) is parsed by the same
+	// application object; a container given values again must hold exactly those
+	Second bool `json:"second,omitempty"`
 	// Policy: error handling policy of the app (C07 runs typed conversion failures under all three)
 	Policy int `json:"policy,omitempty"`
 	// persist keeps the shared default slices across rebuilds of the same case (C20: a program holding its defaults in package-level variables)
@@ -448,6 +453,18 @@ func declareValue(app *cli.Cli, ci int, c *VContainer, nopt *int, prefix string,
 	}
 }
 
+// valueSpecArgv2 renders the second command line of a case.
+func valueSpecArgv2(c *ValueCase) []string {
+	c2 := *c
+	c2.Cs = nil
+	for _, vc := range c.Cs {
+		vc.Cli = vc.Cli2
+		c2.Cs = append(c2.Cs, vc)
+	}
+	_, argv := valueSpecArgv(&c2)
+	return argv
+}
+
 // valueSpecArgv renders the spec and the argument vector of a case.
 func valueSpecArgv(c *ValueCase) (string, []string) {
 	var spec []string
@@ -526,8 +543,9 @@ func CheckValues(prop string, c *ValueCase, st *Stats) (*Violation, *ValueResult
 	var got [][]interface{}
 	var gotSet []bool
 	Begin(prop, "values", c)
-	WithSwap(&out, func() { got, gotSet = RunValuesInner(&out, c) })
-	End()
+	var rerun func(out2 *Outcome, argv2 []string) [][]interface{}
+	WithSwap(&out, func() { got, gotSet, rerun = runValuesInner(&out, c) })
+	defer End()
 	ctx := fmt.Sprintf("spec %q argv %q containers %s", spec, argv, describeContainers(c))
 	if out.Panic != "" || out.Exit != nil {
 		return Violf("Run panicked/exited (%s %s); %s", out.Panic, fmtExit(out.Exit), ctx), res
@@ -565,11 +583,40 @@ func CheckValues(prop string, c *ValueCase, st *Stats) (*Violation, *ValueResult
 		}
 		st.Class("source:" + e.src)
 	}
+	if c.Second && rerun != nil {
+		// a second command line on the same application object: whatever is given again replaces what the variable held
+		argv2 := valueSpecArgv2(c)
+		var out2 Outcome
+		var got2 [][]interface{}
+		WithSwap(&out2, func() { got2 = rerun(&out2, argv2) })
+		ctx2 := fmt.Sprintf("second command line %q on the same application object (first: %q); spec %q containers %s", argv2, argv, spec, describeContainers(c))
+		if out2.Panic != "" || !out2.Accept || out2.HasErr {
+			return Violf("the second command line is valid (every token converts), yet: Action ran=%v err=%q panic=%q; %s", out2.Accept, out2.Err, out2.Panic, ctx2), res
+		}
+		for i := range c.Cs {
+			vc := c.Cs[i]
+			if len(vc.Cli2) == 0 {
+				continue
+			}
+			vc.Cli = vc.Cli2
+			e2 := expectContainer(&vc)
+			if !eqVals(got2[i], e2.vals) {
+				return Violf("container %d (%s %s) holds %v after the second command line, expected exactly the values given there %v; %s", i, kindName(&vc), typeNames[vc.Typ], got2[i], e2.vals, ctx2), res
+			}
+		}
+		st.Class("sequence:second-command-line-on-same-app")
+	}
 	return nil, res
 }
 
 // RunValuesInner builds and runs the app of a value case without touching the package level streams.
 func RunValuesInner(out *Outcome, c *ValueCase) (got [][]interface{}, gotSet []bool) {
+	got, gotSet, _ = runValuesInner(out, c)
+	return
+}
+
+// runValuesInner also returns a function that parses another command line with the same application object.
+func runValuesInner(out *Outcome, c *ValueCase) (got [][]interface{}, gotSet []bool, rerun func(out2 *Outcome, argv2 []string) [][]interface{}) {
 	spec, argv := valueSpecArgv(c)
 	var hs []vHolder
 	app := cli.App("app", "")
@@ -593,8 +640,23 @@ func RunValuesInner(out *Outcome, c *ValueCase) (got [][]interface{}, gotSet []b
 			gotSet = append(gotSet, *h.set)
 		}
 	}
+	if AfterDeclare != nil {
+		AfterDeclare()
+	}
 	if err := app.Run(append([]string{"app"}, argv...)); err != nil {
 		out.HasErr, out.Err = true, err.Error()
+	}
+	rerun = func(out2 *Outcome, argv2 []string) (got2 [][]interface{}) {
+		app.Action = func() {
+			out2.Accept = true
+			for _, h := range hs {
+				got2 = append(got2, h.get())
+			}
+		}
+		if err := app.Run(append([]string{"app"}, argv2...)); err != nil {
+			out2.HasErr, out2.Err = true, err.Error()
+		}
+		return
 	}
 	return
 }
@@ -859,6 +921,32 @@ func GenValueCase(t *rapid.T, mode ValueGenMode) *ValueCase {
 				c.Cs[j].Cli = keep
 				c.ShareDefaults = true
 				break
+			}
+		}
+	}
+	if mode.ValidOnly && chance(t, 1, 4, "second") {
+		c.Second = true
+		for i := range c.Cs {
+			vc := &c.Cs[i]
+			n := rapid.IntRange(0, 2).Draw(t, "ncli2")
+			if vc.IsArg && !multi(vc.Typ) && n > 1 {
+				n = 1
+			}
+			for j := 0; j < n; j++ {
+				cv := CliVal{Tok: genValidToken(t, vc.Typ)}
+				if !vc.IsArg {
+					cv.Form = intn(t, 5, "form2")
+					if vc.Typ == TBool {
+						cv.Form = []int{0, 1, 5, 5}[intn(t, 4, "bform2")]
+					}
+				}
+				if !usableCliToken(cv.Tok, vc.Typ, vc.IsArg, cv.Form, c.WriteDD, c.ArgDD) {
+					cv.Form = 0
+					if vc.IsArg {
+						cv.Tok = map[int]string{TBool: "true", TString: "s", TInt: "7", TFloat: "7.5"}[elemType(vc.Typ)]
+					}
+				}
+				vc.Cli2 = append(vc.Cli2, cv)
 			}
 		}
 	}
